@@ -43,6 +43,11 @@ class FS:
     def share(self, path):
         """Events of worker processes forked later are appended to `path` too; a fault fires in one process only."""
         self.shared = path
+        # a run that died (injected death) leaves its log and its claim file behind: start from nothing, or the next run's fault
+        # would look claimed already - never fire - and still be reported as fired
+        for x in (path, path + ".fired"):
+            if _real_os.path.exists(x):
+                _real_os.remove(x)
         open(path, "a").close()
 
     def shared_log(self):
